@@ -1457,7 +1457,8 @@ func (e *compiledFunctionLiteral) compile() (prg *Program, name unistring.String
 				e.c.emit(nil)
 				mark := len(e.c.p.code)
 				e.c.emit(nil)
-				e.c.emitExpr(e.c.compileExpression(item.Initializer), true)
+				// NamedEvaluation: an anonymous function / class default gets the parameter's name
+				e.c.emitNamedOrConst(e.c.compileExpression(item.Initializer), item.Target.(*ast.Identifier).Name)
 				if firstForwardRef == -1 && (s.isDynamic() || s.bindings[i].useCount() > 0) {
 					firstForwardRef = i
 				}
